@@ -12,6 +12,24 @@ value tie  : the REAL `process_layer` on the REAL DAG (singles / even / odd grou
 oracle     : `simulator.run` (threshold 1e-15, max_bond_dim 4096) vs qiskit `Statevector`: expectations of all 1-site
              and adjacent 2-site Paulis, final state up to a global phase (get_state=True), independence of num_traj.
 Every run of the simulator happens in a forked child with a hard kill timeout (layers_common.run_many).
+
+xg02 extension — ONE `apply_two_qubit_gate` call is exact (theorems C02.5–C02.11 of Props/C02.lean, model `Model/GateWindow.lean`):
+trace tie  : kind `gate-plan` — the REAL `apply_two_qubit_gate` on a random entangled right-canonical MPS (L = 2..6, every gate
+             of the library, both orientations, every position, thresholds 1e-30 so nothing is truncated) with
+             `construct_generator_mpo`, `apply_window`, `two_site_tdvp`, `merge_mps_tensors`, `update_site`, `split_mps_tensor`
+             wrapped (gatewin_common.observe_gate): generator placement, window, gate position inside it and the whole step
+             trace of the sweep (merge / pair step / split / backward site step, site index, dt) **with the role of every
+             `update_site` call measured on its arguments** (identity blocks? MPO tensor = 1⊗A, A⊗B, B⊗1, A, B?) vs the model's
+             `gplan` — the hypotheses of `heff_pair_identity_left/right`, `heff_gate_pair` observed at every call.
+value tie  : kinds `merge-ket`, `merge-op`, `pair-apply`, `pair-idleft`, `pair-idright`, `pair-gate` — the REAL
+             `merge_mps_tensors`, `merge_mpo_tensors`, `project_site` on half-integer tensors vs `mergeKet`, `mergeOp`,
+             `projectSite ∘ pairDims` of the model (exact).
+oracles    : `gate-plan`: new dense state = (qiskit's gate matrix on the two sites)·old dense state to 1e-10, per gate
+             application;  `gate-step`: the same for the window state across the gate's own pair step;  `gate-cancel`: the
+             dense window state after "pair step; split; backward site step" on an identity-left pair, resp. after "backward
+             site step; merge; pair step; split" on an identity-right pair, equals the state before to 1e-10 (the
+             cancellations of `gate_sweep_cancel_left/right` observed on the real code);  `pair-id*`: lemma 1 / 2 as exact
+             identities between real `project_site` calls.
 """
 from __future__ import annotations
 
@@ -23,11 +41,14 @@ import numpy as np
 
 import implbase as ib
 import layers_common as lc
+import gatewin_common as gw
 
 TOL_EXP = 1e-7     # clean tree: worst deviation observed over seeds 0..9 is < 5e-13 (see evidence `worst_*`)
 TOL_FID = 1e-9
 PRE: dict[str, list] = {}
 WORST = {"exp": 0.0, "infid": 0.0, "norm": 0.0}
+TOL_GATE = 1e-10   # clean tree: worst deviation of the three gate oracles over seeds 0..9 is < 2e-14 (see evidence `worst_gate_*`)
+WORST_GATE = {"apply": 0.0, "step": 0.0, "cancel": 0.0, "excursion_min": None, "applications": 0, "cancel_groups": 0}
 
 
 def key_of(inp) -> str:
@@ -91,7 +112,14 @@ def gen(rng, tier):
     res = lc.run_many(jobs) if jobs else []
     for i, inp in enumerate(inputs):
         PRE[key_of(inp)] = [r for r, o in zip(res, owner) if o == i]
+    # xg02: single gate applications (every L, position, orientation, gate) and the merge / pair-projector value ties;
+    # generated after everything above so that the inputs above are the same as before the extension
+    extra = gen_gate_inputs(rng, tier)
+    gate_in = [x for x in extra if x["kind"] == "gapply"]
+    for inp, r in zip(gate_in, gw.run_gate_jobs(gate_in)):
+        PRE[key_of(inp)] = [r]
     yield from inputs
+    yield from extra
 
 
 # ------------------------------------------------------------------------------------------------- oracles
@@ -214,11 +242,177 @@ def run_layer(inp):
              "sig": "pl:" + spec_sig(spec), "nontrivial": len(singles) + len(evens) + len(odds) >= 2}]
 
 
+
+# ------------------------------------------------------------------------------------------------- xg02: one gate application
+def gen_gate_inputs(rng, tier):
+    reps = {"quick": 1, "thorough": 4, "search": 1}.get(tier, 1)
+    n_merge = {"quick": 8, "thorough": 40, "search": 0}.get(tier, 8)
+    names = sorted(lc.G2)
+    out = []
+    for _ in range(reps):
+        for length in range(2, 7):
+            for q in range(length - 1):
+                for a, b in ((q, q + 1), (q + 1, q)):
+                    for name in names:
+                        out.append({"kind": "gapply", "L": length, "a": a, "b": b, "name": name,
+                                    "params": [rng.uniform(-3.2, 3.2) for _ in range(lc.G2[name][1])],
+                                    "chi": rng.choice([1, 2, 3, 4, 4]), "seed": rng.randrange(2 ** 31)})
+    for what in ("ket", "op", "apply", "idleft", "idright", "gate"):
+        for _ in range(n_merge):
+            out.append({"kind": "merge", "what": what, "p0": rng.choice([2, 2, 3]), "p1": rng.choice([2, 2, 3]),
+                        "a": rng.randrange(1, 4), "m": rng.randrange(1, 4), "b": rng.randrange(1, 4),
+                        "l": rng.randrange(1, 3), "r": rng.randrange(1, 3), "seed": rng.randrange(2 ** 31)})
+    return out
+
+
+def run_gapply(inp, r):
+    length, a, b = inp["L"], inp["a"], inp["b"]
+    sig = f"ga:{length}:{a}:{b}:{inp['name']}"
+    req = f"gplan {length} {a} {b}"
+    what = f"{inp['name']}{inp['params']} on sites ({a},{b}) of {length}, bond cap {inp['chi']}, state seed {inp['seed']}"
+    bad = None
+    if r.get("hang"):
+        bad, impl = f"apply_two_qubit_gate does not return (batch killed after {r.get('timeout')} s)", "hang"
+    elif r.get("crash"):
+        bad, impl = "observation crashed: " + r["crash"][-300:], "crash"
+    elif r.get("exc"):
+        bad, impl = "apply_two_qubit_gate raised " + r["exc"], "exc=" + r["exc"].split(":")[0]
+    elif r.get("incomplete"):
+        bad, impl = "apply_two_qubit_gate did not call construct_generator_mpo / apply_window", "incomplete"
+    if bad:
+        return [{"kind": "gate-plan", "req": req, "impl": impl, "oracle": {"ok": False, "detail": f"{what}: {bad}"},
+                 "sig": sig, "nontrivial": True}]
+    toks = []
+    for t in r["toks"]:
+        if isinstance(t, (list, tuple)):
+            kind, idx, dt, role = t
+            toks.append(f"{kind}:{idx}:{ib.frac(dt)}:{role}")
+        else:
+            toks.append(str(t))
+    impl = " ".join([" ".join(str(x) for x in r["head"]), "|"] + toks)
+    dev = r["apply_dev"]
+    WORST_GATE["apply"] = max(WORST_GATE["apply"], dev)
+    WORST_GATE["applications"] += 1
+    ret_ok = r.get("ret") == [r["head"][0], r["head"][1]]
+    ok = dev <= TOL_GATE and ret_ok
+    cases = [{
+        "kind": "gate-plan", "req": req, "impl": impl,
+        "oracle": {"ok": bool(ok), "detail": f"{what}: max |new - G.old| = {dev:.2e} over the dense chain (the gate moved the state by "
+                                              f"{r['changed']:.2e}); returned sites {r.get('ret')}; bonds before {r['dims']}, splits kept/full {r['splits']}"},
+        "sig": sig, "nontrivial": r["changed"] > 1e-6,
+    }]
+    if r.get("gate_step"):
+        idx, gdev, moved = r["gate_step"]
+        WORST_GATE["step"] = max(WORST_GATE["step"], gdev)
+        cases.append({"kind": "gate-step", "req": None, "impl": None,
+                      "oracle": {"ok": bool(gdev <= TOL_GATE),
+                                 "detail": f"{what}: window state after the pair step on pair {idx} and its split vs (G on the pair).state before: {gdev:.2e} (moved {moved:.2e})"},
+                      "sig": "gs:" + sig, "nontrivial": moved > 1e-6})
+    if r.get("cancel"):
+        worst = max(c[2] for c in r["cancel"])
+        exc_min = min(c[3] for c in r["cancel"])
+        WORST_GATE["cancel"] = max(WORST_GATE["cancel"], worst)
+        WORST_GATE["cancel_groups"] += len(r["cancel"])
+        WORST_GATE["excursion_min"] = exc_min if WORST_GATE["excursion_min"] is None else min(WORST_GATE["excursion_min"], exc_min)
+        cases.append({"kind": "gate-cancel", "req": None, "impl": None,
+                      "oracle": {"ok": bool(worst <= TOL_GATE),
+                                 "detail": f"{what}: cancelling groups [side, site, |state after - state before|, excursion in between] = "
+                                           + str([[c[0], c[1], float(f'{c[2]:.2e}'), float(f'{c[3]:.2e}')] for c in r["cancel"]])},
+                      "sig": "gc:" + sig, "nontrivial": max(c[3] for c in r["cancel"]) > 1e-6})
+    return cases
+
+
+def _flat(x):
+    return " ".join(ib.cfrac(z) for z in np.asarray(x).reshape(-1))
+
+
+def run_merge(inp):
+    """value ties of the model's `mergeKet`, `mergeOp`, `projectSite ∘ pairDims` with the REAL functions (pure numpy: cannot hang)"""
+    from mqt.yaqs.core.methods import tdvp
+
+    g = np.random.default_rng(inp["seed"])
+    p0, p1, a, m, b, l, r = (inp[k] for k in ("p0", "p1", "a", "m", "b", "l", "r"))
+    what = inp["what"]
+
+    def rt(*shape):   # half-integers: every product / sum below is exact in binary64
+        return (g.integers(-4, 5, size=shape) + 1j * g.integers(-4, 5, size=shape)) / 2.0
+
+    def id_env(n):
+        e = np.zeros((n, 1, n), dtype=complex)
+        e[np.arange(n), 0, np.arange(n)] = 1
+        return e
+
+    def id_op(d):
+        w = np.zeros((d, d, 1, 1), dtype=complex)
+        w[:, :, 0, 0] = np.eye(d)
+        return w
+
+    sig = f"mg:{what}:{p0}{p1}{a}{m}{b}{l}{r}:{inp['seed'] % 997}"
+    if what == "ket":
+        a0, a1 = rt(p0, a, m), rt(p1, m, b)
+        out = np.asarray(tdvp.merge_mps_tensors(a0, a1))
+        ref = np.einsum("sac,tcb->stab", a0, a1).reshape(p0 * p1, a, b)
+        return [{"kind": "merge-ket", "req": f"mergeket {p0} {p1} {a} {m} {b} | {_flat(a0)} | {_flat(a1)}",
+                 "impl": " ".join(map(str, out.shape)) + " " + _flat(out),
+                 "oracle": {"ok": bool(out.shape == ref.shape and np.array_equal(out, ref)), "detail": "merge_mps_tensors vs explicit sum"},
+                 "sig": sig, "nontrivial": True}]
+    if what == "op":
+        w0, w1 = rt(p0, p0, l, m), rt(p1, p1, m, r)
+        out = np.asarray(tdvp.merge_mpo_tensors(w0, w1))
+        ref = np.einsum("oplk,qtkr->oqptlr", w0, w1).reshape(p0 * p1, p0 * p1, l, r)
+        return [{"kind": "merge-op", "req": f"mergeop {p0} {p0} {p1} {p1} {l} {m} {r} | {_flat(w0)} | {_flat(w1)}",
+                 "impl": " ".join(map(str, out.shape)) + " " + _flat(out),
+                 "oracle": {"ok": bool(out.shape == ref.shape and np.array_equal(out, ref)), "detail": "merge_mpo_tensors vs explicit sum"},
+                 "sig": sig, "nontrivial": True}]
+    # pair projector: project_site(L, R, merge_mpo_tensors(W0, W1), merge_mps_tensors(A0, A1))
+    a0, a1 = rt(p0, a, m), rt(p1, m, b)
+    le, re, w0, w1 = rt(a, l, a), rt(b, r, b), rt(p0, p0, l, 1), rt(p1, p1, 1, r)
+    kind, orc = "pair-apply", None
+    if what == "idleft":
+        l = 1
+        le, w0 = id_env(a), id_op(p0)
+        kind = "pair-idleft"
+    elif what == "idright":
+        r = 1
+        re, w1 = id_env(b), id_op(p1)
+        kind = "pair-idright"
+    elif what == "gate":
+        l = r = 1
+        le, re, w0, w1 = id_env(a), id_env(b), rt(p0, p0, 1, 1), rt(p1, p1, 1, 1)
+        kind = "pair-gate"
+    theta = np.asarray(tdvp.merge_mps_tensors(a0, a1))
+    out = np.asarray(tdvp.project_site(le, re, tdvp.merge_mpo_tensors(w0, w1), theta))
+    th4 = theta.reshape(p0, p1, a, b)
+    if what == "idleft":     # lemma 1: the pair's projector = the site-(i+1) projector on every slice of the merged tensor
+        ref = np.stack([np.asarray(tdvp.project_site(le, re, w1, th4[s])) for s in range(p0)]).reshape(p0 * p1, a, b)
+        orc = {"ok": bool(np.array_equal(out, ref)), "detail": "project_site(pair, 1⊗W1, L = 1) = project_site(site i+1) on every slice (exact arithmetic on half-integers)"}
+    elif what == "idright":
+        ref = np.stack([np.asarray(tdvp.project_site(le, re, w0, th4[:, t])) for t in range(p1)], axis=1).reshape(p0 * p1, a, b)
+        orc = {"ok": bool(np.array_equal(out, ref)), "detail": "project_site(pair, W0⊗1, R = 1) = project_site(site i) on every slice"}
+    elif what == "gate":
+        ref = np.einsum("os,qt,stab->oqab", w0[:, :, 0, 0], w1[:, :, 0, 0], th4).reshape(p0 * p1, a, b)
+        orc = {"ok": bool(np.array_equal(out, ref)), "detail": "project_site(pair, A⊗B, L = R = 1) = (A⊗B) on the two physical legs"}
+    return [{"kind": kind,
+             "req": f"pairapply {p0} {p1} {a} {m} {b} {l} {r} | {_flat(le)} | {_flat(re)} | {_flat(w0)} | {_flat(w1)} | {_flat(a0)} | {_flat(a1)}",
+             "impl": " ".join(map(str, out.shape)) + " " + _flat(out), "oracle": orc, "sig": sig, "nontrivial": True}]
+
+
 def run(inp):
     kind = str(inp["kind"]).split(":")[-1]      # "replay:corpus:modes" → "modes"
     inp = dict(inp, kind=kind)
     if kind == "layer":
         return run_layer(inp)
+    if kind == "merge":
+        return run_merge(inp)
+    if kind == "gapply":
+        res = PRE.pop(key_of(inp), None)
+        if res is None:
+            res = gw.run_gate_jobs([inp])
+        cases = run_gapply(inp, res[0])
+        if "corpus_file" in inp:
+            for c in cases:
+                c["kind"] = "corpus:" + c["kind"]
+        return cases
     results = PRE.pop(key_of(inp), None)
     if results is None:
         results = lc.run_many(jobs_for(inp))
@@ -237,7 +431,12 @@ def run(inp):
 def spec_report():
     return [{"name": "oracle deviations on this run (clean tree: exp < 5e-13, infidelity < 5e-13)", "ok": True,
              "worst_expectation_dev": WORST["exp"], "worst_infidelity": WORST["infid"], "worst_norm_dev": WORST["norm"],
-             "tolerances": {"expectation": TOL_EXP, "fidelity": TOL_FID}}]
+             "tolerances": {"expectation": TOL_EXP, "fidelity": TOL_FID}},
+            {"name": "single gate applications (clean tree: all three deviations < 2e-14): |new - G.old| per apply_two_qubit_gate call, "
+                     "across the gate's own pair step, and across every cancelling group of the sweep", "ok": True,
+             "worst_gate_apply_dev": WORST_GATE["apply"], "worst_gate_step_dev": WORST_GATE["step"],
+             "worst_gate_cancel_dev": WORST_GATE["cancel"], "smallest_excursion_inside_a_cancelling_group": WORST_GATE["excursion_min"],
+             "applications": WORST_GATE["applications"], "cancelling_groups": WORST_GATE["cancel_groups"], "tolerance": TOL_GATE}]
 
 
 if __name__ == "__main__":
@@ -245,15 +444,18 @@ if __name__ == "__main__":
     ib.main(
         "C02", gen, run, driver="Layers",
         rule="distinct = different (width, initial state, instruction sequence with gate names, sites and orientation); "
-             "nontrivial = at least two gates (trace) / at least two gates in the front layer (process-layer)",
+             "nontrivial = at least two gates (trace) / at least two gates in the front layer (process-layer); "
+             "gate applications: distinct = different (length, sites in qargs order, gate); nontrivial = the gate moved the dense state by > 1e-6",
         trusted_base=[
             "qiskit circuit_to_dag / front_layer / remove_op_node modelled as the wire-dependency front of an instruction list (tied on every run through the real DAG)",
             "gate matrices / generators: C18 (each apply_* call realises the gate's unitary); checked here only through the Statevector oracle",
             "qiskit Statevector as the reference semantics of the gate set",
+            "single gate applications: qiskit's `to_matrix()` of the gate class as the reference operator; exact Krylov exponential and untruncated, isometric splits are hypotheses of gate_sweep_exact_* (C19, C09), observed through the 1e-10 oracles",
         ],
         assumptions=[
             "gates on disjoint qubits commute (hypothesis of schedule_sound; true for tensor-product operators)",
             "labels are ASCII (the label predicate is modelled on code points < 128)",
+            "the state handed to apply_two_qubit_gate is right-canonical (form B), as digital_tjm keeps it (hypothesis of heff_* / gate_sweep_exact_*; the tie normalises its random states the same way)",
         ],
         spec=spec_report,
     )
